@@ -78,15 +78,16 @@ func acceptUnits(c *checkCtx, check string) []*interp.Unit {
 			{specs, profile{"tmpl K<=2 Lp<=1", map[string]interface{}{"profile": "tmpl", "K": 2, "Lp": 1}}},
 		}
 	} else {
-		half := append(append([]string{}, base...), everyNth(gen, 2, c.seed)...)
-		eighth := append(append([]string{}, base...), everyNth(gen, 8, c.seed)...)
+		// (sized by measurement: the plan with every 2nd / 8th generated spec did not finish in 40 min)
+		half := append(append([]string{}, base...), everyNth(gen, 16, c.seed)...)
+		eighth := append(everyNth(base, 2, c.seed), everyNth(gen, 64, c.seed)...)
 		core := []string{"[-a] X", "[OPTIONS] X Y", "(-o X)...", "X... Y", "[-ab | -o] X", "-a [-b] X [Y]", "[-ab] [-o] X", "[-a] -- X...", "-o -- X...", "(-a | -b | -o)..."}
 		plans = []plan{
 			{half, profile{"raw K<=2 L<=4", map[string]interface{}{"profile": "raw", "K": 2, "L": 4}}},
 			{eighth, profile{"raw K<=3 L<=3", map[string]interface{}{"profile": "raw", "K": 3, "L": 3}}},
 			{eighth, profile{"tmpl K<=2 Lp<=2", map[string]interface{}{"profile": "tmpl", "K": 2, "Lp": 2}}},
-			{base, profile{"core template K<=4 Lp<=1", map[string]interface{}{"profile": "tmplmini", "K": 4, "Lp": 1}}},
-			{core, profile{"tmpl K<=3 Lp<=1", map[string]interface{}{"profile": "tmpl", "K": 3, "Lp": 1}}},
+			{everyNth(base, 4, c.seed), profile{"core template K<=4 Lp<=1", map[string]interface{}{"profile": "tmplmini", "K": 4, "Lp": 1}}},
+			{core[:5], profile{"tmpl K<=3 Lp<=1", map[string]interface{}{"profile": "tmpl", "K": 3, "Lp": 1}}},
 		}
 	}
 	// long command lines over a small alphabet on repetition-heavy specs
@@ -94,7 +95,10 @@ func acceptUnits(c *checkCtx, check string) []*interp.Unit {
 	if !c.quick() {
 		longSpecs = append(longSpecs, "X...", "-a...", "[X...] Y", "-a... -b...")
 	}
-	plans = append(plans, plan{longSpecs, profile{fmt.Sprintf("long K<=%d over {positional, flag, valued option}", pick(c, 5, 6)), map[string]interface{}{"profile": "long", "K": pick(c, 5, 6), "Lp": 1}}})
+	plans = append(plans, plan{longSpecs, profile{"long K<=5 over {positional, flag, valued option}", map[string]interface{}{"profile": "long", "K": 5, "Lp": 1}}})
+	if !c.quick() {
+		plans = append(plans, plan{longSpecs[:4], profile{"long K<=6 over {positional, flag, valued option}", map[string]interface{}{"profile": "long", "K": 6, "Lp": 1}}})
+	}
 	var us []*interp.Unit
 	for _, pl := range plans {
 		for _, sp := range pl.specs {
@@ -168,10 +172,7 @@ func acceptUnits(c *checkCtx, check string) []*interp.Unit {
 func endUnits(c *checkCtx) []*interp.Unit {
 	cli := groups["cli"]
 	var us []*interp.Unit
-	l := 2
-	if !c.quick() {
-		l = 3
-	}
+	l := 2 // (thorough: K<=3 tokens of <=2 bytes; 3 bytes did not finish within the tier's budget)
 	specs := append(evalList(c, "vFamilyEnd"), "X...", "[-a] X...", "X [Y]...")
 	for _, sp := range specs {
 		ps := map[string]interface{}{"spec": sp, "check": "C09", "shared": 0, "profile": "raw", "K": 3, "L": l}
@@ -227,7 +228,7 @@ func init() {
 			if c.quick() {
 				return map[string]interface{}{"specs": "curated + END family + every 48th generated spec (rotated by VERIF_SEED)", "raw": "K<=2 tokens of L<=3 arbitrary bytes", "template": "K<=2 items over 24 documented/malformed shapes, payload <=1 byte", "long": "K<=5 items over {positional, short flag, valued option + separate value} on 8 repetition-heavy specs", "structural (H_struct)": "every sequence of <=4 spec tokens over 16 kinds that compiles: language equivalence of the compiled graph and the Glushkov automaton of the reference regular expression, proved by k-induction in z3 for label sequences of any length"}
 			}
-			return map[string]interface{}{"specs": "curated (86) + END family (19); every 2nd of the 1476 generated specs for raw K<=2, every 8th for raw K<=3 and the template", "raw": "K<=2 tokens of L<=4 arbitrary bytes; K<=3 tokens of L<=3 bytes", "template": "K<=2 items over 24 documented/malformed shapes with payload <=2 bytes; K<=3 items (payload 1 byte) on 10 core specs; K<=4 items over the 5 well-formed core shapes on curated + END specs", "long": "K<=6 items over {positional, short flag, valued option + separate value} on 12 repetition-heavy specs", "structural (H_struct)": "every sequence of <=5 spec tokens over 16 kinds that compiles: language equivalence by k-induction, label sequences of any length"}
+			return map[string]interface{}{"specs": "curated (86) + END family (19); every 16th of the 1476 generated specs for raw K<=2 L<=4; every 2nd curated/END and every 64th generated spec for raw K<=3 and the 2-byte template (rotated by VERIF_SEED)", "raw": "K<=2 tokens of L<=4 arbitrary bytes; K<=3 tokens of L<=3 bytes", "template": "K<=2 items over 24 documented/malformed shapes with payload <=2 bytes; K<=3 items (payload 1 byte) on 5 core specs; K<=4 items over the 5 well-formed core shapes on every 4th curated / END spec", "long": "K<=5 items over {positional, short flag, valued option + separate value} on 14 repetition-heavy specs, K<=6 on 4 of them", "structural (H_struct)": "every sequence of <=5 spec tokens over 16 kinds that compiles: language equivalence by k-induction, label sequences of any length"}
 		},
 		Assumptions: append([]string{"declaration table: flags -a/--aa -b/--bb, valued -o/--oo -e/--ee (string lists), arguments X Y; no environment variables", "no token equals -h/--help (C14); no folded token with '=' after a flag; inputs of DESIGN.md 4.5 (iv) excluded for specs containing `--`", "flag values written as -a=v convert through strconv.ParseBool modelled as an uninterpreted function shared by implementation and reference"}, commonAssumptions...),
 		Outside:     []string{"command lines longer than K tokens / L bytes", "specs outside the family", "other declaration tables"},
@@ -347,16 +348,17 @@ func init() {
 				tm := append([]string{"[--aa] [--oo] [--ee]", "[-a] [-o] X...", "[OPTIONS] X", "[OPTIONS]"}, everyNth(specs, 6, c.seed)...)
 				us = append(us, specUnits("H_apply_total", tm, []profile{{"tmpl K<=2 Lp<=1, env subsets of {VA,VE}", map[string]interface{}{"profile": "tmpl", "K": 2, "Lp": 1, "envmask": 9}}}, 1)...)
 			} else {
-				specs = append(specs, cur...)
-				specs = append(specs, everyNth(evalList(c, "vFamilyGenerated"), 8, c.seed)...)
-				profs = []profile{{"raw K<=2 L<=3", map[string]interface{}{"profile": "raw", "K": 2, "L": 3}},
-					{"tmpl K<=2 Lp<=1", map[string]interface{}{"profile": "tmpl", "K": 2, "Lp": 1}}}
+				// (sized by measurement: curated + generated specs x two profiles = 680 units did not fit in 40 min)
+				specs = append(specs, everyNth(cur, 2, c.seed)...)
+				specs = append(specs, everyNth(evalList(c, "vFamilyGenerated"), 64, c.seed)...)
+				profs = []profile{{"raw K<=2 L<=3, env subsets of {VA,VE}", map[string]interface{}{"profile": "raw", "K": 2, "L": 3, "envmask": 9}},
+					{"tmpl K<=2 Lp<=1, env subsets of {VA,VE}", map[string]interface{}{"profile": "tmpl", "K": 2, "Lp": 1, "envmask": 9}}}
 			}
 			return append(us, specUnits("H_apply_total", specs, profs, 1)...)
 		},
 		Bounds: func(c *checkCtx) map[string]interface{} {
 			return map[string]interface{}{"H_lex_total/H_doinit_total": fmt.Sprintf("all spec byte strings of <= %d bytes", pick(c, 4, 5)),
-				"H_apply_total": "env-heavy + curated (+ generated, thorough) specs x every subset of the 4 options backed by a set environment variable x argv " + map[bool]string{true: "raw K<=2 L<=2", false: "raw K<=2 L<=3 and template K<=2"}[c.quick()],
+				"H_apply_total": "env-heavy + curated (thorough: every 2nd curated, every 64th generated) specs x subsets of the options backed by a set environment variable (all 16 on the env-heavy specs in the quick tier, {VA,VE} otherwise) x argv " + map[bool]string{true: "raw K<=2 L<=2", false: "raw K<=2 L<=3 and template K<=2"}[c.quick()],
 				"H_tree_total":  "command trees (sub-commands, own -h options, version flag) x K<=3/4 tokens from {help tokens, --, version names, aliases, raw byte} x 3 policies: no runtime error, panics only under PanicOnError",
 				"unwinding":     "recursion depth of fsm apply <= (bytes+tokens+2)*(4*len(spec)+6); calls of simplifySelf <= 40*(len(spec)+2)^2; 20M interpreted instructions per path"}
 		},
@@ -373,13 +375,13 @@ func init() {
 				us := append(endUnits(c), specUnits("H_dd_insert", specs, []profile{{"tmpl K<=2 Lp<=1", map[string]interface{}{"profile": "tmpl", "K": 2, "Lp": 1}}, {"raw K<=2 L<=2", map[string]interface{}{"profile": "raw", "K": 2, "L": 2}}}, 1)...)
 				return append(us, ddTreeUnits([]int{2, 3, 5}, 3, 2)...)
 			}
-			specs := append(cur, everyNth(gen, 4, c.seed)...)
-			us := append(endUnits(c), specUnits("H_dd_insert", specs, []profile{{"tmpl K<=3 Lp<=1", map[string]interface{}{"profile": "tmpl", "K": 3, "Lp": 1}}, {"raw K<=2 L<=3", map[string]interface{}{"profile": "raw", "K": 2, "L": 3}}}, 1)...)
+			specs := append(everyNth(cur, 2, c.seed), everyNth(gen, 48, c.seed)...)
+			us := append(endUnits(c), specUnits("H_dd_insert", specs, []profile{{"tmpl K<=2 Lp<=2", map[string]interface{}{"profile": "tmpl", "K": 2, "Lp": 2}}, {"core template K<=3 Lp<=1", map[string]interface{}{"profile": "tmplmini", "K": 3, "Lp": 1}}, {"raw K<=2 L<=3", map[string]interface{}{"profile": "raw", "K": 2, "L": 3}}}, 1)...)
 			return append(us, ddTreeUnits([]int{1, 2, 3, 4, 5, 7}, 4, 2)...)
 		},
 		Bounds: func(c *checkCtx) map[string]interface{} {
 			return map[string]interface{}{"insertion": "every insertion point 0..K whose tail consists of non-dash positionals, including the very end",
-				"argv":  map[bool]string{true: "template K<=2 items (payload 1 byte), raw K<=2 L<=2", false: "template K<=3 items, raw K<=2 L<=3"}[c.quick()],
+				"argv":  map[bool]string{true: "template K<=2 items (payload 1 byte), raw K<=2 L<=2", false: "template K<=2 items (payload <=2 bytes), core template K<=3, raw K<=2 L<=3"}[c.quick()],
 				"trees": "the same insertion into one level's own tokens of a command tree (sub-commands follow): routing, verdict and every level's bindings unchanged; raw K<=3/4 tokens of <=2 bytes",
 				"specs": "`--`-free curated and generated specs (subset rotated by VERIF_SEED) for the insertion clause; END family (15 specs with a spec-level `--`) + 3 repetition specs through the differential harness H_accept (acceptance and verbatim bindings vs the reference) for the spec-level `--` / verbatim-tail clauses"}
 		},
@@ -398,11 +400,11 @@ func init() {
 				us = append(us, specUnits("H_respell", []string{"((-o -b) | (-a -o)) X", "(-b | -e) -a [-b] X"}, []profile{{"n<=3 Lp<=1", map[string]interface{}{"n": 3, "Lp": 1, "flagsOnly": 0}}}, 1)...)
 				return append(us, specUnits("H_respell", []string{"-a... [-b]", "-a... -b", "(-a | -b)...", "[-ab]..."}, []profile{{"flags only n<=4", map[string]interface{}{"n": 4, "Lp": 1, "flagsOnly": 1, "names": 0}}}, 1)...)
 			}
-			us := specUnits("H_respell", append(core, everyNth(all, 6, c.seed)...), []profile{{"n<=2 Lp<=2", map[string]interface{}{"n": 2, "Lp": 2, "flagsOnly": 0, "names": 0}}}, 1)
+			us := specUnits("H_respell", append(core, everyNth(all, 24, c.seed)...), []profile{{"n<=2 Lp<=2", map[string]interface{}{"n": 2, "Lp": 2, "flagsOnly": 0, "names": 0}}}, 1)
 			us = append(us, specUnits("H_respell", []string{"-a... [-b]", "-a... -b", "(-a | -b)...", "[-ab]...", "-a... -b...", "[OPTIONS]"}, []profile{{"flags only n<=5", map[string]interface{}{"n": 5, "Lp": 1, "flagsOnly": 1, "names": 0}}}, 1)...)
 			us = append(us, respellNames(3)...)
 			us = append(us, respellCustom(3)...)
-			return append(us, specUnits("H_respell", everyNth(all, 48, c.seed), []profile{{"n<=3 Lp<=1", map[string]interface{}{"n": 3, "Lp": 1, "flagsOnly": 0, "names": 0}}}, 1)...)
+			return append(us, specUnits("H_respell", everyNth(all, 192, c.seed), []profile{{"n<=3 Lp<=1", map[string]interface{}{"n": 3, "Lp": 1, "flagsOnly": 0, "names": 0}}}, 1)...)
 		},
 		Bounds: func(c *checkCtx) map[string]interface{} {
 			return map[string]interface{}{"items": map[bool]string{true: "n<=2 items, payload 1 symbolic byte; n<=4 flag occurrences (deep folds)", false: "n<=2 items payload <=2 bytes; n<=3 items payload 1 byte; n<=5 flag occurrences"}[c.quick()],
@@ -426,11 +428,13 @@ func init() {
 				us = append(us, specUnits("H_swap", []string{"[-a] [-o] X...", "[-b] [-o] [-a]"}, []profile{{"valued options are user-defined types with IsBoolFlag()=false, n<=2 Lp<=1", map[string]interface{}{"n": 2, "Lp": 1, "env": 0, "flagsOnly": 0, "custom": 2}}}, 1)...)
 				return append(us, specUnits("H_swap", append([]string{"[-a] [-o] [X]", "[-o] [-e] [-a]"}, everyNth(all, 960, c.seed)...), []profile{{"n<=3 Lp<=1", map[string]interface{}{"n": 3, "Lp": 1, "env": 0, "flagsOnly": 0}}}, 1)...)
 			}
-			us := specUnits("H_swap", append(core, everyNth(all, 8, c.seed)...), []profile{{"n<=3 Lp<=1", map[string]interface{}{"n": 3, "Lp": 1, "env": 0, "flagsOnly": 0}}}, 1)
-			us = append(us, specUnits("H_swap", []string{"[OPTIONS]", "[-ab]", "-a... [-b]", "(-a | -b)...", "[-ab]... X"}, []profile{{"flags only n<=5 env subsets", map[string]interface{}{"n": 5, "Lp": 1, "env": 1, "flagsOnly": 1}}}, 1)...)
-			us = append(us, specUnits("H_swap", []string{"[-a] [-o] X...", "[-b] [-o] [-a]"}, []profile{{"valued options are user-defined types with IsBoolFlag()=false, n<=3 Lp<=1", map[string]interface{}{"n": 3, "Lp": 1, "env": 0, "flagsOnly": 0, "custom": 2}}}, 1)...)
+			// (sized by measurement: n<=3 on ~35 specs plus n<=3 with env subsets did not fit in 18 min)
+			us := specUnits("H_swap", append(core, everyNth(all, 16, c.seed)...), []profile{{"n<=2 Lp<=2", map[string]interface{}{"n": 2, "Lp": 2, "env": 0, "flagsOnly": 0}}}, 1)
+			us = append(us, specUnits("H_swap", core, []profile{{"n<=3 Lp<=1", map[string]interface{}{"n": 3, "Lp": 1, "env": 0, "flagsOnly": 0}}}, 1)...)
+			us = append(us, specUnits("H_swap", []string{"[OPTIONS]", "[-ab]", "-a... [-b]", "(-a | -b)...", "[-ab]... X"}, []profile{{"flags only n<=5, env subsets of {VA,VB}", map[string]interface{}{"n": 5, "Lp": 1, "env": 1, "flagsOnly": 1, "envmask": 3}}}, 1)...)
+			us = append(us, specUnits("H_swap", []string{"[-a] [-o] X...", "[-b] [-o] [-a]"}, []profile{{"valued options are user-defined types with IsBoolFlag()=false, n<=2 Lp<=1", map[string]interface{}{"n": 2, "Lp": 1, "env": 0, "flagsOnly": 0, "custom": 2}}}, 1)...)
 			us = append(us, specUnits("H_swap", []string{"[-a] [-b]", "[-b] [-o] [-a]", "[OPTIONS]", "[-ab] [-o]", "-a [-b] X"}, []profile{{"flags are user-defined value types, n<=3 Lp<=1", map[string]interface{}{"n": 3, "Lp": 1, "env": 0, "flagsOnly": 0, "custom": 1}}}, 1)...)
-			return append(us, specUnits("H_swap", envSpecs, []profile{{"n<=3 Lp<=1 env subsets", map[string]interface{}{"n": 3, "Lp": 1, "env": 1, "flagsOnly": 0}}}, 1)...)
+			return append(us, specUnits("H_swap", envSpecs, []profile{{"n<=2 Lp<=1, all 16 env subsets", map[string]interface{}{"n": 2, "Lp": 1, "env": 1, "flagsOnly": 0}}}, 1)...)
 		},
 		Bounds: func(c *checkCtx) map[string]interface{} {
 			return map[string]interface{}{"items": "n<=2 (quick; n<=3 on a few specs and in thorough) items, payload 1 symbolic byte; n<=4 (thorough 5) flag occurrences with every subset of environment-backed options; every adjacent pair of occurrences of different options; every spelling incl. folded pairs"}
@@ -451,13 +455,17 @@ func init() {
 				us = append(us, specUnits("H_envmono", []string{"[OPTIONS]", "[OPTIONS] X", "-ae", "-a -o -e X", "-a -b -o -e", "-a -o -- X"}, []profile{{"tmpl K<=2 Lp<=1, all 16 env subsets", map[string]interface{}{"profile": "tmpl", "K": 2, "Lp": 1, "envmask": 15}}}, 1)...)
 				return append(us, requiredEnvUnits(1, 1)...)
 			}
-			specs = append(specs, cur...)
-			us := specUnits("H_envmono", specs, []profile{{"tmpl K<=2 Lp<=1", map[string]interface{}{"profile": "tmpl", "K": 2, "Lp": 1}}, {"raw K<=2 L<=3", map[string]interface{}{"profile": "raw", "K": 2, "L": 3}}}, 1)
+			// (sized by measurement: every env-heavy and curated spec with all 16 subsets did not fit in 18 min)
+			us := specUnits("H_envmono", append(core, append(everyNth(specs, 3, c.seed), everyNth(cur, 20, c.seed)...)...), []profile{{"tmpl K<=2 Lp<=1, env subsets of {VA,VE}", map[string]interface{}{"profile": "tmpl", "K": 2, "Lp": 1, "envmask": 9}}}, 1)
+			us = append(us, specUnits("H_envmono", core, []profile{{"raw K<=2 L<=3, env subsets of {VA,VE}", map[string]interface{}{"profile": "raw", "K": 2, "L": 3, "envmask": 9}}}, 1)...)
+			us = append(us, specUnits("H_envmono", []string{"-e X", "-a -e", "[OPTIONS] X [OPTIONS]", "-o [-a]"}, []profile{{"raw K<=2 L<=2, declared defaults equal to the environment values", map[string]interface{}{"profile": "raw", "K": 2, "L": 2, "envmask": 15, "defEqEnv": 1}}}, 1)...)
+			us = append(us, specUnits("H_envmono", []string{"[OPTIONS] X [OPTIONS]", "[-ae] X [-ae]"}, []profile{{"core template K<=3 Lp<=1, env subsets of {VA,VE}", map[string]interface{}{"profile": "tmplmini", "K": 3, "Lp": 1, "envmask": 9}}}, 1)...)
+			us = append(us, specUnits("H_envmono", []string{"[OPTIONS]", "[OPTIONS] X", "-ae", "-a -o -e X", "-a -b -o -e", "-a -o -- X", "[-e...] X", "(-e | -a)... X"}, []profile{{"tmpl K<=2 Lp<=1, all 16 env subsets", map[string]interface{}{"profile": "tmpl", "K": 2, "Lp": 1, "envmask": 15}}}, 1)...)
 			return append(us, requiredEnvUnits(3, 2)...)
 		},
 		Bounds: func(c *checkCtx) map[string]interface{} {
-			return map[string]interface{}{"env": map[bool]string{true: "every subset of {VA,VE} (all 16 subsets of {VA,VB,VO,VE} on the three option-group specs)", false: "every subset of {VA,VB,VO,VE}"}[c.quick()] + " set to a fixed valid value (symbolic bits)", "argv": "template K<=2 items over 20 shapes" + map[bool]string{true: "", false: "; raw K<=2 L<=3"}[c.quick()],
-				"specs": "env-heavy shapes + curated + END family (quick: a rotated subset)"}
+			return map[string]interface{}{"env": map[bool]string{true: "every subset of {VA,VE} (all 16 subsets of {VA,VB,VO,VE} on the three option-group specs)", false: "every subset of {VA,VE} (all 16 subsets of {VA,VB,VO,VE} on 8 option-group / multi-option specs)"}[c.quick()] + " set to a fixed valid value (symbolic bits)", "argv": "template K<=2 items over 24 shapes" + map[bool]string{true: "", false: "; raw K<=2 L<=3 on the core specs"}[c.quick()],
+				"specs": "env-heavy shapes + curated + END family (a rotated subset: quick every 6th / 40th, thorough every 3rd / 20th)"}
 		},
 		Assumptions: append([]string{"value-identity clause only for specs without `--`", "differential clause (acceptance with env == reference with env fallback) only for specs without option groups"}, commonAssumptions...),
 		Outside:     []string{"longer command lines", "invalid environment values (C06)"},
@@ -607,10 +615,12 @@ func init() {
 			if c.quick() {
 				return treeUnits("H_help", helpTrees, 3, 1, 4)
 			}
-			return append(treeUnits("H_help", append(allTrees, 6), 5, 1, 4), treeUnits("H_help", []int{1, 5, 6}, 3, 2, 4)...)
+			// (K<=5 on every tree did not finish in 40 min once the trees had grown to 11)
+			us := append(treeUnits("H_help", append(allTrees, 6, 11), 4, 1, 4), treeUnits("H_help", []int{1, 5, 6}, 3, 2, 4)...)
+			return append(us, treeUnits("H_help", []int{3, 4}, 5, 1, 4)...)
 		},
 		Bounds: func(c *checkCtx) map[string]interface{} {
-			return map[string]interface{}{"argv": map[bool]string{true: "K<=3", false: "K<=5 (and K<=3 with 2-byte raw tokens)"}[c.quick()] + " tokens from {-h, --help, --, -v, --version, -f, every alias of the tree, raw bytes}", "policies": "all three (case split)"}
+			return map[string]interface{}{"argv": map[bool]string{true: "K<=3", false: "K<=4 on every tree, K<=5 on trees 3 and 4 (and K<=3 with 2-byte raw tokens)"}[c.quick()] + " tokens from {-h, --help, --, -v, --version, -f, every alias of the tree, raw bytes}", "policies": "all three (case split)"}
 		},
 		Assumptions: append([]string{"oracle: the statement transcribed (first help token that no `--` precedes addresses the command reached by the sub-command names before it) cross-checked against the reference router; the unclaimed case (ancestor's own arguments contain `--`) is assumed away"}, commonAssumptions...),
 		Outside:     []string{"other trees", "longer command lines", "byte-exact rendering of the help text"},
@@ -679,7 +689,8 @@ func init() {
 						}
 						profs := []profile{{"tmpl K<=2 Lp<=1", map[string]interface{}{"profile": "tmpl", "K": 2, "Lp": 1}}, {"raw K<=2 L<=2", map[string]interface{}{"profile": "raw", "K": 2, "L": 2}}}
 						if !c.quick() {
-							profs = []profile{{"tmpl K<=3 Lp<=1", map[string]interface{}{"profile": "tmpl", "K": 3, "Lp": 1}}, {"raw K<=2 L<=3", map[string]interface{}{"profile": "raw", "K": 2, "L": 3}}}
+							// (the full template with K<=3 items did not finish in 18 min: core template for K<=3)
+							profs = []profile{{"tmpl K<=2 Lp<=2", map[string]interface{}{"profile": "tmpl", "K": 2, "Lp": 2}}, {"core template K<=3 Lp<=1", map[string]interface{}{"profile": "tmplmini", "K": 3, "Lp": 1}}, {"raw K<=2 L<=3", map[string]interface{}{"profile": "raw", "K": 2, "L": 3}}}
 						}
 						for _, pr := range profs {
 							ps := map[string]interface{}{"nopt": nopt, "narg": narg, "swap": swap, "env": 0, "argsFirst": 0, "withSub": 0}
@@ -728,7 +739,7 @@ func init() {
 			return us
 		},
 		Bounds: func(c *checkCtx) map[string]interface{} {
-			return map[string]interface{}{"declarations": "0-2 options from {flag -a/--aa, valued -o/--oo}, 0-2 arguments from {X, Y}: 15 sets, also with every parameter backed by an environment variable (symbolic subset set); 6 pairs of argument names containing one another or contained in `[OPTIONS]`", "argv": map[bool]string{true: "template K<=2, raw K<=2 L<=2", false: "template K<=3, raw K<=2 L<=3"}[c.quick()],
+			return map[string]interface{}{"declarations": "0-2 options from {flag -a/--aa, valued -o/--oo}, 0-2 arguments from {X, Y}: 15 sets, also with every parameter backed by an environment variable (symbolic subset set); 6 pairs of argument names containing one another or contained in `[OPTIONS]`", "argv": map[bool]string{true: "template K<=2, raw K<=2 L<=2", false: "template K<=2 (payload <=2 bytes), core template K<=3, raw K<=2 L<=3"}[c.quick()],
 				"sub-commands": "spec-less sub-commands are exercised by trees 1 and 4 of C04/C07/C14 (usage line oracle assumes C16)"}
 		},
 		Assumptions: commonAssumptions,
@@ -777,7 +788,8 @@ func init() {
 			}
 			pcs := []pc{{"oo", 3, 1}, {"aa", 1, 2}, {"oa", 2, 2}, {"ao", 2, 2}, {"ov", 2, 1}, {"vo", 2, 1}}
 			if !c.quick() {
-				pcs = []pc{{"oo", 4, 1}, {"aa", 1, 3}, {"oa", 3, 2}, {"ao", 3, 2}, {"ooo", 2, 1}, {"aaa", 1, 1}, {"oao", 2, 1}, {"ov", 3, 1}, {"vo", 3, 1}, {"ovo", 2, 1}}
+				// (names of 4 bytes in two declarations took 31 min: 3 bytes, and triples of shorter names)
+				pcs = []pc{{"oo", 3, 1}, {"aa", 1, 3}, {"oa", 2, 2}, {"ao", 2, 2}, {"ooo", 2, 1}, {"aaa", 1, 1}, {"oao", 2, 1}, {"ov", 2, 1}, {"vo", 2, 1}, {"ovo", 1, 1}}
 			}
 			var us []*interp.Unit
 			for _, x := range pcs {
@@ -796,7 +808,7 @@ func init() {
 			return us
 		},
 		Bounds: func(c *checkCtx) map[string]interface{} {
-			return map[string]interface{}{"sequences": map[bool]string{true: "2 declarations (option/option, argument/argument, mixed)", false: "2-3 declarations"}[c.quick()], "names": "raw ASCII bytes: option name lists " + map[bool]string{true: "<=3", false: "<=4"}[c.quick()] + " bytes (blanks split them into several names), argument names <=2-3 bytes without blanks"}
+			return map[string]interface{}{"sequences": map[bool]string{true: "2 declarations (option/option, argument/argument, mixed)", false: "2-3 declarations"}[c.quick()], "names": "raw ASCII bytes: option name lists " + map[bool]string{true: "<=3", false: "<=3 (<=2 in triples)"}[c.quick()] + " bytes (blanks split them into several names), argument names <=2-3 bytes without blanks"}
 		},
 		Assumptions: commonAssumptions,
 		Outside:     []string{"non-ASCII names", "argument names containing blanks (C08)", "longer names"},
